@@ -431,12 +431,94 @@ def automaton_step(states, op):
     yield {(("L" + a) if c == "L" else c) for c, s, a in nxt}, nxt
 
 
+ANSI = re.compile("\x1b\\[[0-9;]*m")
+PRETTY = re.compile(r"^\d\d\.\d\d\.\d{4} \d\d:\d\d:\d\d(?:\.\d{3})? ([ IWEF]) (.*)$", re.S)   # the code prints no milliseconds, the documentation shows them
+
+
+def run_part_c(ctx):
+    """The one-line configuration and an INI file without message_pattern install the pretty formatter; its documented line is
+    'DD.MM.YYYY hh:mm:ss.zzz T [category] message', and once more than one thread has logged it adds a thread column.  One formatter
+    formats messages that really come from N distinct threads (crossing the 10 and 100 boundaries) in scripted orders; the monitor checks
+    the documented shape and that the thread column is a function of the thread: absent for exactly the first thread seen, otherwise
+    'T<decimal>', the same for a thread every time, different for different threads.  -> (cases, lines judged)"""
+    from ..core import hexb, unhexs
+    rnd = random.Random(ctx.seed * 131 + 19)
+    cases = []
+    for n in [1, 2, 9, 10, 11, 12, 13, 99, 100, 101, 102, 120] + [rnd.randint(2, 160) for _ in range(ctx.pick(6, 150))]:
+        cats = rnd.choice([[b"default"], [b"default", b"net"], [b"a.very.long.category.name.indeed", b"default"]])
+        k = rnd.random()
+        if k < 0.5:
+            order = list(range(n)) + [0, n - 1, 0] + [rnd.randrange(n) for _ in range(20)]
+        else:
+            order = [rnd.randrange(n) for _ in range(min(3 * n, 300))] + list(range(n))
+        cases.append((rnd.randrange(2), rnd.choice([-1, 0, 10, 15, 40]), n, cats, order[:500]))
+    lines = ["TT %d %d %d %d %d %s %d %s" % (i, c[0], c[1], c[2], len(c[3]), " ".join(hexb(x) for x in c[3]), len(c[4]),
+                                              " ".join(str(t) for t in c[4])) for i, c in enumerate(cases)]
+    results, crashes = fmtdrv.run_cases(ctx, "san", lines, chunk=8)
+    judged = 0
+    for cid, line, kind, err in crashes:
+        if kind != "skipped":
+            ctx.violation("C19:pretty:driver-%s" % kind, err[-800:], {"part": "C", "line": lines[int(cid)]})
+    crashed = {cid for cid, _, _, _ in crashes}
+    for i, c in enumerate(cases):
+        if str(i) in crashed:
+            continue
+        n = c[2]
+        label = {}
+        seen_threads = []
+        for t, h in zip(c[4], results[str(i)]):
+            t %= n
+            text = ANSI.sub("", unhexs(h))
+            judged += 1
+            m = PRETTY.match(text)
+            letter = " IWE"[t % 4]           # the driver's thread t logs type t % 4 (debug, info, warning, critical)
+            bad = None
+            if not m or m.group(1) != letter or not m.group(2).endswith("text-of-t%d" % t):
+                bad = "line does not have the documented shape"
+            else:
+                if t not in seen_threads:
+                    seen_threads.append(t)
+                rest = m.group(2)
+                lm = re.match(r"T(\d+) ", rest)
+                if len(seen_threads) == 1:
+                    lab = "-"                # no thread column before a second thread has logged
+                    if lm:
+                        bad = "thread column although only one thread has logged"
+                elif lm:
+                    lab = lm.group(1)
+                elif rest.startswith("   "):
+                    lab = "-"
+                else:
+                    bad = "thread column is neither blank nor T<number>"
+                if bad is None:
+                    if lab == "-" and t != seen_threads[0]:
+                        bad = "blank thread column for a thread that is not the first one seen"
+                    elif lab != "-" and t == seen_threads[0]:
+                        bad = "the first thread seen is labelled"
+                    elif label.setdefault(t, lab) != lab and not (label[t] == "-" or lab == "-"):
+                        bad = "thread labelled %s before and %s now" % (label[t], lab)
+                    elif lab != "-" and any(o != t and l == lab for o, l in label.items()):
+                        bad = "label T%s is shared with another thread" % lab
+            if bad:
+                ctx.violation("C19:pretty-thread-column", "%d threads, message of thread #%d (%d-th distinct): %s: %r"
+                              % (n, t, seen_threads.index(t) if t in seen_threads else -1, bad, text[:120]), {"part": "C", "line": lines[i]})
+                break
+    return len(cases), judged
+
+
 def run(ctx):
     exe = build.driver("plain", "drv_app")
     rnd = random.Random(ctx.seed * 7907 + 19)
     part_b = None
     if ctx.replay:
-        rep = json.load(open(ctx.replay))["case"]
+        whole = json.load(open(ctx.replay))
+        rep = whole["case"]
+        if rep.get("part") == "C":
+            # part C is deterministic in (seed, tier): run it again as a whole
+            ctx.seed, ctx.tier = whole["seed"], whole["tier"]
+            ctx.quick = ctx.tier == "quick"
+            nc, jc = run_part_c(ctx)
+            return ctx.finish({"evaluations": nc, "distinct_nontrivial": 0, "rule": "replay of part C", "part_c_lines_judged": jc}, [], min_evals=1)
         if rep.get("part") == "B":
             specs = []
             lines = ["H 0 %d %d %s" % (rep["initial"], len(rep["ops"]), " ".join(rep["ops"]))]
@@ -492,8 +574,10 @@ def run(ctx):
                             "stdout_lines": len(lines_of(res["stdout"])), "stderr_lines": len(lines_of(res["stderr"])), "files": res["files"]})
     nb = db = amb = 0
     maxlen = 0
+    nc = jc = 0
     if not ctx.replay:
         nb, db, amb, maxlen = run_part_b(ctx)
+        nc, jc = run_part_c(ctx)
     cov = {
         "evaluations": evals + nb,
         "distinct_nontrivial": len(distinct) + db,
@@ -505,7 +589,8 @@ def run(ctx):
         "samples": samples,
         "part_a_children": evals, "part_a_by_mode": modes, "part_a_qualifying_messages": qualifying, "part_a_children_on_pseudo_terminals": ttys,
         "part_b_histories": nb, "part_b_histories_with_accept_set": amb, "part_b_exhaustive_up_to_length": maxlen,
-        "not_modelled": "layout of the pretty formatter (containment and multiplicity only)",
+        "part_c_pretty_formatter_cases": nc, "part_c_lines_judged": jc,
+        "not_modelled": "column widths and colours of the pretty formatter (part A: containment and multiplicity; part C: documented shape and thread column)",
     }
     return ctx.finish(cov, ["LC_ALL=C.UTF-8", "QT_LOGGING_RULES unset, empty HOME/XDG config dirs", "stdout/stderr are pipes, for a share of the INI configurations pseudo-terminals"],
                       min_evals=1 if ctx.replay else 100)
